@@ -120,6 +120,9 @@ func (s *JSONDB) ReadStatusRecent(dagFile string, n int) []*model.StatusFile {
 	// A run that was killed before its first status was written leaves a
 	// file without any status behind; it must not use up one of the n slots.
 	files := s.latest(s.globPattern(dagFile), -1)
+	// A run that was killed while its history was being compacted leaves both
+	// the compacted file and the original behind; it is listed once.
+	seen := make(map[string]bool)
 	for _, file := range files {
 		if len(ret) >= n {
 			break
@@ -130,6 +133,10 @@ func (s *JSONDB) ReadStatusRecent(dagFile string, n int) []*model.StatusFile {
 		if err != nil {
 			continue
 		}
+		if seen[status.RequestID] {
+			continue
+		}
+		seen[status.RequestID] = true
 		ret = append(ret, &model.StatusFile{
 			File:   file,
 			Status: status,
@@ -388,7 +395,13 @@ func filterLatest(files []string, n int) []string {
 		return nil
 	}
 	sort.Slice(files, func(i, j int) bool {
-		return timestamp(files[i]) > timestamp(files[j])
+		ti, tj := timestamp(files[i]), timestamp(files[j])
+		if ti != tj {
+			return ti > tj
+		}
+		// Same start time: order by name, so that the result is
+		// deterministic and a compacted file (_c) precedes its original.
+		return files[i] > files[j]
 	})
 	if n < 0 || n > len(files) {
 		n = len(files)
